@@ -111,7 +111,7 @@ def _task_fold(arg):
 def run_C02(run):
     import itertools
     from .. import common
-    cov, assumptions = _run(run, [monitors.C02(1500 if run.tier == 'quick' else 6000)])
+    cov, assumptions = _run(run, [monitors.C02(1500 if run.tier == 'quick' else 6000), monitors.C02Groups()])
     atoms = [e for e, _ in al.tiny_atoms()] + ["'a|b'", "'['", "Capture('c')", "Optional('a')", "'a+'", "OneOrMore('a')", "'a\\\\|b'"]
     a4 = ["'a'", "Pregex()", "Either('a', 'b')", "'c|'"] if run.tier == 'quick' else atoms[:6]
     cases = [(cls, combo) for cls in FOLD_CLASSES for combo in itertools.product(atoms, repeat=3)]
